@@ -4,7 +4,7 @@
 // kinds: array map hashmap shared smart (handle types), count (AtomicCount), atomic (Atomic<int>)
 // program = comma separated ops: c<i> push a copy of handle i | x destroy the last handle | a<i><j> handle i = handle j
 //           (indices modulo the current number of handles; ops on an empty handle list are skipped)
-//           i / d : ++ / -- on the AtomicCount, p<n> : Atomic<int> += n
+//           i / d : ++ / -- on the AtomicCount, p<n> : Atomic<int> += n, s<n> : -= n, I / P : ++x / x++, D / M : --x / x--
 #include "common.h"
 #include "vsched.h"
 #include <asl/Array.h>
@@ -41,7 +41,7 @@ static std::vector<Prog> parseProgs(const std::string& s)
 				Op op = { o[0], 0, 0 };
 				if ((o[0] == 'c' || o[0] == 'u') && o.size() > 1) op.i = o[1] - '0';
 				if (o[0] == 'a' && o.size() > 2) { op.i = o[1] - '0'; op.j = o[2] - '0'; }
-				if (o[0] == 'p') op.i = atoi(o.c_str() + 1);
+				if (o[0] == 'p' || o[0] == 's') op.i = atoi(o.c_str() + 1);
 				pr.push_back(op);
 			}
 			c = d + 1;
@@ -204,6 +204,11 @@ static std::string scenCounters(const std::vector<Prog>& progs, int maxSched)
 					if (p[k].t == 'i') ++cnt;
 					else if (p[k].t == 'd') --cnt;
 					else if (p[k].t == 'p') var += p[k].i;
+					else if (p[k].t == 's') var -= p[k].i;
+					else if (p[k].t == 'I') ++var;
+					else if (p[k].t == 'P') var++;
+					else if (p[k].t == 'D') --var;
+					else if (p[k].t == 'M') var--;
 				}
 			});
 		bool dl = false;
